@@ -1,6 +1,7 @@
 (* C19 - plot artists pair every value with its own cell. *)
 From Coq Require Import ZArith List Bool.
 From EV Require Import Base.Index Base.ListX Model.Export Proofs.ExportP.
+From EV Require Import Model.DepthCoord Model.PlotArgs Proofs.PlotArgsP.
 Import ListNotations.
 Open Scope Z_scope.
 
@@ -37,3 +38,46 @@ Theorem C19_quiver_same_cell : forall (C V : Type) (centres : list C) (u v : lis
   nth_error centres n = Some c /\ nth_error u n = Some a /\ nth_error v n = Some b.
 Proof. exact @quiver_same_cell. Qed.
 Print Assumptions C19_quiver_same_cell.
+
+(* ---- what is drawn and what is refused, as decided by the arguments ---- *)
+
+(* values of a variable colour the patches only when the variable lies on the grid of the cells and has no other dimension;
+   clim then comes from the data unless the caller gave one; the caller's transform is the one used *)
+Theorem C19_values_only_from_the_cells_grid : forall grids default dims ha hc ht c t,
+  make_poly_collection grids default (Some dims) ha hc ht = PCollection FromData c t ->
+  ha = false /\ grid_kind grids dims = Some default /\ (forall x, In x dims -> In x (dims_of grids default)) /\ t = ht
+  /\ c = (if hc then FromUser else FromData).
+Proof. exact poly_from_data. Qed.
+Print Assumptions C19_values_only_from_the_cells_grid.
+
+(* a variable with a leftover non-spatial dimension is refused *)
+Theorem C19_leftover_dimension_refused : forall grids default dims ha hc ht d,
+  In d dims -> ~ In d (dims_of grids default) ->
+  forall a c t, make_poly_collection grids default (Some dims) ha hc ht <> PCollection a c t.
+Proof. exact poly_leftover_refused. Qed.
+Print Assumptions C19_leftover_dimension_refused.
+
+(* a variable of another grid kind (mesh nodes, edges) is refused, however many locations that grid has *)
+Theorem C19_other_grid_refused : forall grids default dims hc ht k,
+  grid_kind grids dims = Some k -> k <> default ->
+  make_poly_collection grids default (Some dims) false hc ht = POtherGrid /\
+  make_quiver grids default (Some dims) (Some dims) ht = QOtherGrid.
+Proof. intros. split; [now apply poly_other_grid_refused with k|now apply quiver_other_grid_refused with k]. Qed.
+Print Assumptions C19_other_grid_refused.
+
+(* array / clim / transform supplied by the caller are used as given *)
+Theorem C19_user_overrides : forall grids default arg ha hc ht a c t,
+  make_poly_collection grids default arg ha hc ht = PCollection a c t ->
+  t = ht /\ (hc = true -> c = FromUser) /\ (a = FromUser <-> (arg = None /\ ha = true))
+  /\ (hc = false -> c = FromData -> a = FromData).
+Proof. exact poly_user_overrides. Qed.
+Print Assumptions C19_user_overrides.
+
+(* arrows carry components only when both are given with identical dimensions, on the cells' grid, nothing left over *)
+Theorem C19_quiver_components : forall grids default u v ht c t,
+  make_quiver grids default u v ht = QArrows c t ->
+  t = ht /\ (c = FromData -> exists d, u = Some d /\ v = Some d /\ grid_kind grids d = Some default
+                                     /\ forall x, In x d -> In x (dims_of grids default))
+  /\ (c <> FromData -> c = Absent /\ (u = None \/ v = None)).
+Proof. exact quiver_from_data. Qed.
+Print Assumptions C19_quiver_components.
